@@ -1,4 +1,5 @@
 import OpenHTF.Model.TestObject
+import OpenHTF.Model.TestObjectConc
 import OpenHTF.Driver.C08
 /- C09 driver: `C09 <test> PL … # run1-tokens | run2-tokens | …` (the same Test object executed several times).
    Per run, beyond the C08 tokens: `F:<facts>` record finality facts, `CBSAME:<b>` every callback got the
@@ -47,7 +48,74 @@ def runFailures (r : Run) (real : Toks) : List String :=
   (if real.contains "TI:0" then [] else ["still-registered-for-sigint"]) ++
   (if real.contains "V:-" || real.contains "V:InvalidTestStateError" then [] else ["overlapping-execute-not-refused"])
 
+/-! `C09 RACE <nthreads> # <tok>*`: several threads called execute() on one Test under the scheduler. Tokens in the order
+   the effects happened: `a<t>` took Test._lock, `c<t>` stored its executor in Test._executor, `r<t>` released the lock,
+   `k<t>` cleared Test._executor, `x<t>` execute() raised InvalidTestStateError, `R:<facts>` end-of-run facts. -/
+namespace Race
+open OpenHTF.TestObjectConc
+
+structure RS where
+  s : S := {}
+  ok : Bool := true        -- every step was enabled in the model and check outcomes matched
+  why : String := ""
+
+def fire (r : RS) (a : Act) (what : String) : RS :=
+  if !r.ok then r else
+  match step r.s a with
+  | some s' => { r with s := s' }
+  | none => { r with ok := false, why := "model-cannot-" ++ what }
+
+def feed (r : RS) (t : String) : RS :=
+  let th := (t.drop 1).toString.toNat?.getD 0
+  if t.startsWith "a" then fire (fire r (.enter th) "enter") (.acquire th) ("acquire:" ++ t)
+  else if t.startsWith "c" then
+    -- the real thread created an executor: its check must have found the slot empty
+    let r1 := fire r (.check th) "check"
+    if r1.ok && r1.s.pc th != .creating then { r1 with ok := false, why := "real-created-an-executor-where-the-model-refuses:" ++ t }
+    else fire r1 (.create th) ("create:" ++ t)
+  else if t.startsWith "r" then
+    if r.s.pc th == .inLock then
+      -- released without creating: the real thread was refused
+      let r1 := fire r (.check th) "check"
+      if r1.ok && r1.s.pc th != .idle then { r1 with ok := false, why := "real-refused-where-the-model-starts:" ++ t } else r1
+    else fire r (.release th) ("release:" ++ t)
+  else if t.startsWith "k" then fire r (.finish th) ("finish:" ++ t)
+  else r
+
+/-- the property on the REAL token stream: no executor stored while another thread's is still in place -/
+def overlapFailures (ts : Toks) : List String :=
+  let rec go (cur : Option String) : List String → List String
+    | [] => []
+    | t :: rest =>
+      if t.startsWith "c" then
+        (match cur with
+         | some o => if o != (t.drop 1).toString then ["two-executions-of-one-test-overlap"] else []
+         | none => []) ++ go (some (t.drop 1).toString) rest
+      else if t.startsWith "k" then go none rest
+      else go cur rest
+  go none ts
+
 def handle (ts : Toks) : String :=
+  let (_, real) := splitAt "#" ts
+  let evs := real.filter (fun t => !(t.startsWith "R:") && !(t.startsWith "x"))
+  let r := evs.foldl feed {}
+  let nref := (real.filter (·.startsWith "x")).length
+  let facts := real.filter (·.startsWith "R:")
+  let fails := (overlapFailures evs ++
+    (if facts.contains "R:executor-left" then ["test-still-holds-executor"] else []) ++
+    (if facts.contains "R:registered-left" then ["still-registered-for-sigint"] else []) ++
+    (if facts.contains "R:handlers-left" then ["record-log-handler-leaked"] else []) ++
+    (if facts.contains "R:deadlock" then ["deadlock"] else []) ++
+    (if facts.contains "R:record-count-mismatch" then ["records-do-not-match-successful-executes"] else []) ++
+    (if facts.contains "R:raised-other" then ["execute-raised-something-else"] else [])).eraseDups
+  let agree := r.ok && r.s.refused == nref && r.s.exec.isNone
+  reply agree fails.isEmpty
+    (if fails.isEmpty then (if agree then "ok" else "diff " ++ (if r.ok then "refused/clear-count" else r.why))
+     else ",".intercalate fails ++ (if agree then "" else " " ++ r.why))
+end Race
+
+def handle (ts : Toks) : String :=
+  if ts.head? == some "RACE" then Race.handle ts else
   let (inp, real) := splitAt "#" ts
   match C08.run inp with
   | some ((cfg, r), []) =>
